@@ -9,7 +9,12 @@ import unicodedata
 
 
 class TermError(Exception):
-    pass
+    """Well-formed input the model has no meaning for: a harness limitation (exit 2)."""
+
+
+class TermMalformed(TermError):
+    """Input that is not a sequence of complete escape sequences and text (a stray ESC, half a
+    CSI): what was written cannot be interpreted by any terminal the way it was meant."""
 
 
 def char_width(ch):
@@ -44,7 +49,7 @@ def tokens(data):
     pos = 0
     for m in TOKEN.finditer(data):
         if m.start() != pos:
-            raise TermError("untokenizable input at %d: %r" % (pos, data[pos:pos + 20]))
+            raise TermMalformed("untokenizable input at %d: %r" % (pos, data[pos:pos + 20]))
         pos = m.end()
         params, final, osc, ctl, text, esc = m.groups()
         if final:
@@ -56,9 +61,9 @@ def tokens(data):
         elif text:
             yield ("text", text)
         elif esc:
-            raise TermError("stray ESC at %d in %r" % (m.start(), data[max(0, m.start() - 10):m.start() + 20]))
+            raise TermMalformed("stray ESC at %d in %r" % (m.start(), data[max(0, m.start() - 10):m.start() + 20]))
     if pos != len(data):
-        raise TermError("untokenizable tail %r" % data[pos:pos + 20])
+        raise TermMalformed("untokenizable tail %r" % data[pos:pos + 20])
 
 
 def visible_text(data):
